@@ -20,7 +20,8 @@ RULE = ("programs of the C02 and C03 spaces, in the three script kinds; expected
         "wrapper shell and one for validity of the whole text. distinct_nontrivial = scripts whose every function was readable.")
 TRUSTED = ["lean/Drx/Spec/JsRead.lean: reader of the JavaScript subset (JavaScript grouping rules) and toJs (the intended translation, as data)",
            "lean/Drx/Spec/Compile.lean compile scheme (see C02 scheme_validation)", "nodejs --check is only a second opinion (thorough, optional)"]
-ASSUMPTIONS = ["same as C02 / C03", "the JavaScript runtime objects (_movie, _global, LingoString, symbol, list, ...) are not modelled: "
+ASSUMPTIONS = ["same as C02 / C03", "script numbers < 32768: the header field is read as a signed 16-bit value (a larger number would give `class Object__-…`); "
+               "Director 4 casts hold at most 32000 members, the generator goes up to 32767", "the JavaScript runtime objects (_movie, _global, LingoString, symbol, list, ...) are not modelled: "
                "denotation is compared at the level of syntax trees through the fixed correspondences"]
 
 NODE = "/usr/bin/nodejs"
@@ -131,7 +132,7 @@ def code_order_globals(body):
 
 
 # the C02 features that also change the JavaScript (F40 / F122 / F124 / F125 / F21 do not: the JavaScript side is right there)
-C02_RELEVANT = ("F20", "F38")
+C02_RELEVANT = ("F20", "F38", "F140")
 EXCEPTION_FEATURES = ()
 FIXED_JS = {"F120", "F128", "F129", "F130"}     # repaired in /repo: ordinary inputs now
 
@@ -158,6 +159,11 @@ def js_features(h, skind):
     """F120: global referenced by name before the handler reads/writes it; F20: string object index printed as a plain JS string;
     the C03 classes (raw jump pseudo-statements appear in the JavaScript as well)"""
     f = set(L.c03_classes(h[3:]))
+    # F141: a local variable, a parameter or (plain scripts: functions) the handler itself is named by a JavaScript reserved word
+    reserved = set(L.JS_RESERVED_IDS) | (set(L.JS_STRICT_RESERVED_IDS) if skind != "plain" else set())
+    if (any(isinstance(t, list) and len(t) == 2 and t[0] in ("l", "p") and t[1] in reserved for t in L.walk(h[3:]))
+            or any(p in reserved for p in h[2]) or (skind == "plain" and h[1] in reserved)):
+        f.add("F141")
     if skind != "plain" and any(len(t) >= 2 and t[0] == "tell" for t in L.walk(h[3:])):
         f.add("F131")
     if code_order_globals(h[3:]):
@@ -334,6 +340,10 @@ PROBES = {
          ["tell", ["c", "window", ["s", S("b")]], ["set", ["the", "sys", 0x1b], ["i", 2]]],
          ["set", ["the", "sys", 0x1b], ["i", 3]]],
         ["set", ["the", "sys", 0x1b], ["i", 4]]]),
+    "f139_declared_property_named_like_movie_property": dict(tree=["script", ["factory", "-"], ["props", "actorList"], ["globals"],
+        ["on", "probe", ["a"], ["set", ["r", "actorList"], ["i", 1]], ["set", ["l", "x"], ["r", "actorList"]]]], pre=[], kind="probe"),
+    "f140_symbol_first_arg_of_list_function": _p([["set", ["l", "x"], ["c", "getOne", ["y", "foo"], ["i", 3]]]]),
+    "f141_reserved_word_as_local": _p([["set", ["l", "var"], ["i", 3]]]),
     "f138_exit_directly_in_tell": _p([["while", ["b", "ne", ["l", "c"], ["i", 1]], ["tell", ["c", "window", ["s", S("a")]], ["call", "beep"], "exitrep"]]]),
     "f137_if_inside_tell": _p([["tell", ["c", "window", ["s", S("a")]], ["if", ["b", "lt", ["l", "c"], ["i", 2]], [["set", ["the", "sys", 0x1b], ["i", 1]]], [["call", "beep"]]],
                                 ["with", ["l", "i"], ["i", 1], ["i", 3], "up", ["call", "put", ["the", "sys", 0x1b]]]]]),
@@ -378,6 +388,7 @@ def cases(rng, tier):
         scripts.append(dict(tree=with_kind(s["tree"], rng.choice(["plain", "props", "factory"]), rng), pre=s.get("pre", []), kind=s["kind"]))
     scripts += c02.wide_scripts(rng)
     scripts += tell_scripts(rng, dict(quick=150, thorough=3000, search=1500)[tier])
+    scripts += L.border_scripts(rng, tier)
     for sc in scripts:
         t = sc["tree"]
         sc["tree"] = t[:4] + [limit_features(h, t) for h in t[4:]]
